@@ -1132,6 +1132,10 @@ func (s *IPSets) writeUpdates(setName string, w io.Writer, listener UpdateListen
 	if needCreate || needTempIPSet {
 		if needTempIPSet {
 			// After the swap, the temp IP set has the _old_ dataplane metadata.
+			// No deletion of the temp set has been attempted yet, so it must not
+			// inherit the main set's DeleteFailed flag (which would make us skip
+			// its deletion until the next resync).
+			dpMeta.DeleteFailed = false
 			s.setNameToProgrammedMetadata.Dataplane().Set(tempSet, dpMeta)
 		}
 		// The main IP set now has the correct metadata.
